@@ -423,13 +423,15 @@ theorem findall_lsb0_mirror_partial_s (l t : Bits) (start stop : Option Int) (co
   · rfl
   · split
     · rfl
-    · rename_i a b hv
-      have hv' := validateSlice_bounds_s hv
-      unfold findall_
-      dsimp only
-      apply findall_lsb0_chunks_eq_partial_s _ l t a b _ ba hv'.1 hv'.2 ht
-      · have := hv'.1; have := hv'.2
-        simp only [multiChunk, chunkIncrement, gt_iff_lt, decide_eq_false_iff_not]; omega
-      · rw [countAligned_map_s]; exact hcount
+    · split
+      · rfl
+      · rename_i a b hv
+        have hv' := validateSlice_bounds_s hv
+        unfold findall_
+        dsimp only
+        apply findall_lsb0_chunks_eq_partial_s _ l t a b _ ba hv'.1 hv'.2 ht
+        · have := hv'.1; have := hv'.2
+          simp only [multiChunk, chunkIncrement, gt_iff_lt, decide_eq_false_iff_not]; omega
+        · rw [countAligned_map_s]; exact hcount
 
 end BM.C12
